@@ -7,7 +7,7 @@
 #define CP m_mru_position
 #define T_NAME "mru"
 #define T_POLICY P_MRU
-using C = cappuccino::mru_cache<uint64_t, uint64_t, cappuccino::thread_safe::TS>;
+using C = cappuccino::mru_cache<uint64_t, VAL_T, cappuccino::thread_safe::TS>;
 #else
 #include <cappuccino/lru_cache.hpp>
 #define CL m_lru_list
@@ -15,7 +15,7 @@ using C = cappuccino::mru_cache<uint64_t, uint64_t, cappuccino::thread_safe::TS>
 #define CP m_lru_position
 #define T_NAME "lru"
 #define T_POLICY P_LRU
-using C = cappuccino::lru_cache<uint64_t, uint64_t, cappuccino::thread_safe::TS>;
+using C = cappuccino::lru_cache<uint64_t, VAL_T, cappuccino::thread_safe::TS>;
 #endif
 #define T_TTL 0
 #define T_PEEK 1
@@ -27,13 +27,13 @@ using C = cappuccino::lru_cache<uint64_t, uint64_t, cappuccino::thread_safe::TS>
 #define T_HAS_AGE 0
 #define T_HAS_UPDTTL 0
 #define DECL_C(c) C c(HCAP)
-static bool x_insert(C& c, uint64_t k, uint64_t v, uint8_t a, int64_t) { return c.insert(k, v, (cappuccino::allow)a); }
+static bool x_insert(C& c, uint64_t k, uint64_t v, uint8_t a, int64_t) { return c.insert(k, VAL_T(v), (cappuccino::allow)a); }
 static bool x_erase(C& c, uint64_t k) { return c.erase(k); }
 static void x_find(C& c, uint64_t k, bool pk, Res& r)
 {
     auto o = c.find(k, pk ? cappuccino::peek::yes : cappuccino::peek::no);
     r.ok   = o.has_value();
-    r.val  = r.ok ? *o : 0;
+    r.val  = r.ok ? val_u(*o) : 0;
     r.cnt  = 0;
 }
 // abstraction function through the std API only (used on the real build)
@@ -58,7 +58,7 @@ static void alpha_real(C& c, Abs& a)
         size_t slot = *it;
         if (slot >= c.m_elements.size()) { a.k[p] = 0xDEAD000000000000ULL + p; continue; }
         a.k[p] = key_of_slot(c, slot);
-        a.v[p] = c.m_elements[slot].m_value;
+        a.v[p] = val_u(c.m_elements[slot].m_value);
     }
 }
 #endif
